@@ -135,6 +135,10 @@ def decide(spec, tier, seed):
     for r in results:
         if r.crashed:
             broken.append({"kind": "broken-correspondence", "obligation": "stream " + r.name, "detail": r.crashed})
+        if getattr(r, "selftest_failures", None):
+            # the machinery itself is wrong: a deliberately wrong model answer was accepted as equal
+            broken.append({"kind": "broken-machinery", "obligation": "comparison self-test of stream " + r.name,
+                           "detail": "a deliberately wrong model answer was not reported as a difference: %r" % (r.selftest_failures[:2],)})
         for mm in r.mismatches[:50]:
             broken.append(dict(kind="broken-correspondence", obligation="stream %s: model and implementation disagree" % r.name, **mm.as_dict()))
         for (req, p, text) in r.props:
@@ -221,6 +225,7 @@ def decide(spec, tier, seed):
             "exhaustive": bool(spec.exhaustive(tier)),
             "streams": [{"name": r.name, "requests": r.requests, "evaluations": r.weight,
                          "mismatches": len(r.mismatches), "response_kinds": r.kinds,
+                         "comparison_self_tests": getattr(r, "selftests", 0),
                          "property_failures_on_real_code": len([1 for (_, p, _) in r.props if p == pid])} for r in results],
             "traces_validated_against_impl": int(sum(r.requests for r in results)),
             "known_findings_seen": {kid: n for kid, (k, n) in known_hits.items()},
